@@ -16,6 +16,9 @@ def main():
     if sh('git -C /repo status --porcelain').stdout.strip():
         print('refusing: /repo is not clean')
         return 2
+    if os.environ.get('SEED_REVERT'):
+        c = os.environ['SEED_REVERT']
+        sh('git -C /repo diff %s %s~1 | git -C /repo apply' % (c, c))
     a = sh('git -C /repo apply %s' % os.path.join(d, 'patch.diff'))
     if a.returncode != 0:
         print('patch does not apply:', a.stdout[-300:])
